@@ -278,4 +278,137 @@ def dftSig (numeric : Bool) : List (CTerm K) → Nat → K → Option K
 
 end
 
+
+/-! ### Round 3: sequences with an origin (`nseq.py`, `zseq.py`, `sequence.py`), the DTFT rule cascade
+    (`dtft.py: DTFTTransformer.term`), the `discretize` substitutions (`sexpr.py`) -/
+section
+variable {K : Type} [Add K] [Mul K] [Neg K] [Sub K] [Div K] [OfNat K 0] [OfNat K 1]
+
+def lsum : List K → K
+  | [] => 0
+  | a :: l => a + lsum l
+
+/-- `DiscreteTimeDomainSequence.ZT`: element i is `vals[i] * z**(-i)` — the list POSITION i; the sequence
+    index `n0 + i` is not used and the result is re-indexed from 0 (finding F27 for `n0 ≠ 0`) -/
+def seqZTPy (vals : List K) (z : K) : List K := pdilateFrom (1 / z) 1 vals
+
+/-- the z-transform terms with the sequence index: element i is `vals[i] * z**(-(n0 + i))` -/
+def seqZT (vals : List K) (n0 : Int) (z : K) : List K := pdilateFrom (1 / z) (zpowK (1 / z) n0) vals
+
+/-- `ZDomainSequence.IZT`: element i is `terms[i] * z**i` -/
+def seqIZTPy (terms : List K) (z : K) : List K := pdilateFrom z 1 terms
+
+/-- `DiscreteTimeDomainSequence.DFT` at `q = exp(-2 j pi k / N)`, `N = len vals`: `Σ_i vals[i] q^(n0+i)` -/
+def seqDFTPy (vals : List K) (n0 : Int) (q : K) : K := lsum (pdilateFrom q (zpowK q n0) vals)
+
+/-- `DiscreteFourierDomainSequence.IDFT` numerator at `r = exp(2 j pi n / N)`: `Σ_i vals[i] r^(k0+i)` (then `/ N`) -/
+def seqIDFTPy (vals : List K) (k0 : Int) (r : K) (N : K) : K := lsum (pdilateFrom r (zpowK r k0) vals) / N
+
+/-- `Sequence.convolve`: values and first index -/
+def convolveSeq (x : List K) (x0 : Int) (h : List K) (h0 : Int) : List K × Int := (convolvePy x h, x0 + h0)
+
+/-! #### DTFT (regular part, as a rational function of `w = E = exp(-jΩ)`) -/
+
+/-- modulation factor: none, `cos(b n + c)` or `sin(b n + c)` given by `eb = e^{jb}`, `ec = e^{jc}` (and `j`) -/
+inductive DMod (K : Type) where
+  | none
+  | cos (eb ec : K)
+  | sin (eb ec j : K)
+
+/-- `coef * n^p * a^n * gate[n] * mod[n]`, gate = `u[n-d]` (isStep) or `δ[n-d]` -/
+structure DTerm (K : Type) where
+  coef : K
+  p : Nat
+  a : K
+  isStep : Bool
+  d : Int
+  mod : DMod K
+
+/-- rule "u(n+n0) * a**n": `a^d E^d / (1 - a E)`; rule "impulse": `a^d E^d`.  The DTFT is bilateral: a negative
+    `d` gives a positive power of `1/E` (field `adv`) and that IS the defining sum. -/
+def dtftGate (a : K) (isStep : Bool) (d : Int) : ZR K :=
+  let den : List K := if isStep then [1, -a] else [1]
+  if d ≥ 0 then ⟨0, pshift d.toNat [zpowK a d], den⟩ else ⟨(-d).toNat, [zpowK a d], den⟩
+
+/-- the cascade of `DTFTTransformer.term`: the sin/cos rule is applied first (outermost), then the
+    "multiplication with n" rule p times (`j/(2π Δt) d/df = E d/dE`), then the step/impulse rule:
+      cos: 1/2 (e^{-jc} X(Ω+b) + e^{jc} X(Ω-b)),   sin: j/2 (e^{-jc} X(Ω+b) - e^{jc} X(Ω-b)),
+    `X(Ω ± b)` is `E ↦ E e^{∓jb}`. -/
+def dtftReg (t : DTerm K) : ZR K :=
+  let X := iter ZR.mulN t.p (dtftGate t.a t.isStep t.d)
+  ZR.scale t.coef (match t.mod with
+    | .none => X
+    | .cos eb ec =>
+      ZR.scale (1 / (1 + 1)) (ZR.add (ZR.scale (1 / ec) (ZR.dilate (1 / eb) X)) (ZR.scale ec (ZR.dilate eb X)))
+    | .sin eb ec j =>
+      ZR.scale (j / (1 + 1)) (ZR.add (ZR.scale (1 / ec) (ZR.dilate (1 / eb) X)) (ZR.scale (-ec) (ZR.dilate eb X))))
+
+def dtftRegSig (ts : List (DTerm K)) : ZR K :=
+  ts.foldr (fun t acc => ZR.add (dtftReg t) acc) ZR.zero
+
+/-- the modulation factor's value at n -/
+def DMod.val : DMod K → Int → K
+  | .none, _ => 1
+  | .cos eb ec, n => (zpowK eb n * ec + 1 / (zpowK eb n * ec)) / (1 + 1)
+  | .sin eb ec j, n => (zpowK eb n * ec - 1 / (zpowK eb n * ec)) / ((1 + 1) * j)
+
+def DTerm.val (t : DTerm K) (n : Int) : K :=
+  t.coef * powK (intK n) t.p * zpowK t.a n * (if t.isStep then (if t.d ≤ n then 1 else 0) else (if n = t.d then 1 else 0))
+    * t.mod.val n
+
+def dsigVal (ts : List (DTerm K)) (n : Int) : K :=
+  ts.foldr (fun t acc => t.val n + acc) 0
+
+/-- coefficient of the Dirac comb `2π Σ_m δ(Ω - θ - 2π m)` in the DTFT of a term that is not absolutely
+    summable (step gate with `a = 1`, `p = 0`; otherwise none): the list of `(e^{jθ}, weight)`; formal pairs (no sum exists):
+      u[n-d]                       -> 1/2 at θ = 0
+      u[n-d] cos(b n + c)          -> e^{jc}/4 at θ = b,  e^{-jc}/4 at θ = -b   (the delay phase e^{-jθd} is 1·e^{∓jbd})
+    The code produces them through `X(Ω ∓ b)` substitution into `DiracDelta(f)/(2Δt)`. -/
+def dtftComb [DecidableEq K] (t : DTerm K) : List (K × K) :=
+  if t.isStep ∧ t.a = 1 ∧ t.p = 0 then
+    match t.mod with
+    | .none => [(1, t.coef / (1 + 1))]
+    | .cos eb ec => [(eb, t.coef * ec / ((1 + 1) * (1 + 1))), (1 / eb, t.coef / ec / ((1 + 1) * (1 + 1)))]
+    | .sin eb ec j => [(eb, -(t.coef * j * ec) / ((1 + 1) * (1 + 1))), (1 / eb, t.coef * j / ec / ((1 + 1) * (1 + 1)))]
+  else []
+
+/-! #### `discretize`: substitution `s = sn(w)/sd(w)`, `w = 1/z`, into `H(s) = num(s)/den(s)` -/
+
+def ppow (p : List K) : Nat → List K
+  | 0 => [1]
+  | n + 1 => pmul p (ppow p n)
+
+/-- `Σ_i c_i sn^i sd^(M-i)` (Horner form; needs `len c ≤ M + 1`) -/
+def homSubst (sn sd : List K) : List K → Nat → List K
+  | [], _ => []
+  | c :: cs, M => padd (pscale c (ppow sd M)) (pmul sn (homSubst sn sd cs (M - 1)))
+
+/-- `H(sn/sd)` as (numerator, denominator) in w; coefficient lists of H lowest power of s first -/
+def substRat (num den sn sd : List K) : List K × List K :=
+  let M := max num.length den.length - 1
+  (homSubst sn sd num M, homSubst sn sd den M)
+
+/-- `generalized_bilinear_transform(alpha)`: `s = (1/Δ) (1 - w) / (α + (1-α) w)`;
+    α = 1/2 bilinear (Tustin), α = 0 forward Euler, α = 1 backward Euler -/
+def gbtNum : List K := [1, -1]
+def gbtDen (alpha dt : K) : List K := [dt * alpha, dt * (1 - alpha)]
+
+/-- `simpson_transform`: `s = (3/Δ) (z² - 1)/(z² + 4 z + 1) = 3 (1 - w²) / (Δ (1 + 4 w + w²))` -/
+def simpsonNum : List K := [1 + 1 + 1, 0, -(1 + 1 + 1)]
+def simpsonDen (dt : K) : List K := [dt, (1 + 1 + 1 + 1) * dt, dt]
+
+def discretizeGBT (alpha dt : K) (num den : List K) : List K × List K :=
+  substRat num den gbtNum (gbtDen alpha dt)
+
+def discretizeSimpson (dt : K) (num den : List K) : List K × List K :=
+  substRat num den simpsonNum (simpsonDen dt)
+
+/-- `impulse_invariance_transform` / `matched_ztransform` of `Σ_i r_i / (s - p_i)` (simple poles), given
+    `E_i = exp(p_i Δ)`: `Δ Σ_i r_i / (1 - E_i w)` -/
+def impulseInvariance (dt : K) : List (K × K) → ZR K
+  | [] => ZR.zero
+  | (r, e) :: rest => ZR.add ⟨0, [dt * r], [1, -e]⟩ (impulseInvariance dt rest)
+
+end
+
 end Lcapy.DT
